@@ -205,10 +205,10 @@ func I(workPackage types.WorkPackage, j int, o types.ByteSequence, imports [][]t
 func C(item types.WorkItem, result types.WorkExecResult, gas types.Gas) types.WorkResult {
 	payloadHash := hash.Blake2bHash(item.Payload)
 	importCount := types.U16(len(item.ImportSegments))
-	extrinsicSize := types.U32(len(item.Extrinsic))
-	var zSum types.U16
+	extrinsicCount := types.U16(len(item.Extrinsic))
+	var extrinsicSize types.U32
 	for _, v := range item.Extrinsic {
-		zSum += types.U16(v.Len)
+		extrinsicSize += v.Len
 	}
 	return types.WorkResult{
 		ServiceID:     item.Service,
@@ -217,11 +217,11 @@ func C(item types.WorkItem, result types.WorkExecResult, gas types.Gas) types.Wo
 		AccumulateGas: item.AccumulateGasLimit,
 		Result:        result,
 		RefineLoad: types.RefineLoad{
-			GasUsed:        gas,
-			Imports:        importCount,
-			ExtrinsicCount: item.ExportCount,
-			ExtrinsicSize:  extrinsicSize,
-			Exports:        zSum,
+			GasUsed:        gas,              // u
+			Imports:        importCount,      // i = |w_i|
+			ExtrinsicCount: extrinsicCount,   // x = |w_x|
+			ExtrinsicSize:  extrinsicSize,    // z = sum of the extrinsic lengths
+			Exports:        item.ExportCount, // e = w_e
 		},
 	}
 }
